@@ -3,6 +3,7 @@ import random
 import re
 
 from . import common as C
+from . import lowering_gen
 
 META = {
     "title": "Each Luau-lowering rule removes every occurrence of its construct",
@@ -26,7 +27,10 @@ META = {
             "statement, 11 statement-in-statement, 2 statement-in-expression slots), depth 1 exhaustive, depth 2 sampled "
             "(quick) or exhaustive (thorough); plus all nine rules together in random order; non-trivial = the input tree "
             "contains the construct (census > 0); distinct by source text",
-    "assumptions": ["visitor compositionality beyond depth 2"],
+    "assumptions": ["visitor compositionality beyond depth 2",
+                    "remove_continue is not modelled in Coq (post-order rule with a loop stack): its census is observed on "
+                    "the real rule's output only; the theorems cover the other eight rules, for programs that declare no "
+                    "local named math/string/tostring/__DARKLUA_VAR* (shadow handling of the rules is outside the model)"],
 }
 
 # ---------------------------------------------------------------------------------------------
@@ -36,7 +40,7 @@ EE = ["(HOLE)", "-HOLE", "not HOLE", "HOLE + 1", "1 .. HOLE", "HOLE and 1", "1 o
       "o:m(HOLE)", "(HOLE).x", "(HOLE)[1]", "t[HOLE]", "(HOLE)(1)", "(HOLE):m()", "{ HOLE }", "{ HOLE, 2 }",
       "{ k = HOLE }", "{ [HOLE] = 1 }", "{ [1] = HOLE }", "f { HOLE }", "(if c then HOLE else 0)",
       "(if HOLE then 1 else 0)", "(if c then 1 else HOLE)", "(if c then 1 elseif HOLE then 2 else 3)",
-      "(if c then 1 elseif d then HOLE else 3)", "`x{HOLE}y`", "(HOLE :: any)", "HOLE // 2", "2 // HOLE",
+      "(if c then 1 elseif d then HOLE else 3)", "`x{HOLE}y`", "`{HOLE}`", "(HOLE :: any)", "HOLE // 2", "2 // HOLE",
       "function() return HOLE end", "function(...) local q = HOLE return q end", "HOLE == 1", "HOLE < 2"]
 
 ES = ["local v = HOLE", "local a, b = 1, HOLE", "v = HOLE", "t.f = HOLE", "t[HOLE] = 1", "(HOLE).y = 1", "v += HOLE",
@@ -49,6 +53,12 @@ ES = ["local v = HOLE", "local a, b = 1, HOLE", "v = HOLE", "t.f = HOLE", "t[HOL
 SS = ["do HOLE end", "if c then HOLE end", "if c then else HOLE end", "if c then elseif d then HOLE end",
       "while c do HOLE end", "repeat HOLE until c", "for i = 1, 2 do HOLE end", "for k, v in pairs(t) do HOLE end",
       "function f() HOLE end", "local function g() HOLE end", "function t:m() HOLE end"]
+
+# statements placed in front of the construct inside the same block (traversal state carried
+# from one statement to the next)
+SIBLINGS = ["local f = function(l) for _, x in l do p(x) end end", "local function g() while c do q() end end",
+            "while c do break end", "do end", "t.m = function() repeat until c end",
+            "call(function() for i = 1, 2 do end end)"]
 
 LOOPS = ["while c do HOLE end", "repeat HOLE until c", "for i = 1, 2 do HOLE end", "for k, v in pairs(t) do HOLE end"]
 
@@ -111,6 +121,15 @@ def contexts_for_stmt(k, depth2, rnd, limit, loops_only=False):
     for se in SE:
         inner = LOOPS[0].replace("HOLE", k) if loops_only else k
         out.append(("local r = " + se).replace("HOLE", inner))
+    # the construct after a sibling statement, and inside a function that is itself an operand of
+    # every expression context (always generated: these are the traversal's state-carrying paths)
+    for ss in pool:
+        for sib in SIBLINGS:
+            out.append(ss.replace("HOLE", sib + " " + k))
+    inner_loop = LOOPS[2].replace("HOLE", k) if loops_only else k
+    for ee in EE:
+        for se in SE:
+            out.append(("local r = " + ee).replace("HOLE", se.replace("HOLE", inner_loop)))
     if depth2:
         combos = []
         for ss in pool:
@@ -234,6 +253,8 @@ def run(ctx):
                removed=ok, input_without_construct=vac, still_present=len(bad), unparsable_templates=template_errors)
     ctx.stream("Luau number spellings in the written text", sum(1 for j in jobs if j[3] in (-1, 5, 99)),
                sum(1 for j in jobs if j[3] == -1), [], still_present=len(text_bad))
+    # the tie of the theorems' models (Model/Lowering.v, Model/Visit.v) to the Rust rules
+    lowering_gen.run_stream(ctx, ctx.prop)
     for k in sorted(bad)[:5]:
         job, stage = index[k]
         ctx.violation("construct still present after the rule that targets it",
